@@ -14,8 +14,15 @@ ModelDiff(o) == IF ~HasModel(o) THEN {}
                 ELSE IF o.model.fatal # (~o.ok) THEN {"info-resolver-error-differs-from-algorithm-model"}
                 ELSE IF o.ok /\ (o.graph.nodes # o.model.nodes \/ AsSet(o.graph.edges) # AsSet(o.model.edges)) THEN {"info-graph-differs-from-algorithm-model"}
                 ELSE {}
+\* The stale-requirement deviations (recorded finding C07-F25) need a restart (design-level statement
+\* MavenResolve!DoneAllLawsWithoutRestart: a resolution that never restarted obeys every law, nearest-wins included).  The
+\* harness reports whether the real resolution restarted; the same symptom without a restart is not that finding.
+StaleNames == {"stale-soft-requirement-of-a-version-replaced-after-it-was-expanded", "stale-soft-requirement-of-an-abandoned-branch",
+               "stale-order-a-farther-declaration-met-first-in-an-abandoned-attempt-wins"}
+Restarted(o) == IF "restarted" \in DOMAIN o THEN o.restarted ELSE TRUE
+LawName(x, o) == IF x[1] \in StaleNames /\ ~Restarted(o) THEN x[1] \o "-although-the-resolution-never-restarted" ELSE x[1]
 LawsOK(o) == o.ok => \A x \in MavenViolations(o.universe, o.root, o.graph, o.softonly) :
-                        CSVWrite("%1$s", <<ToJson([law |-> x[1], n |-> row, k |-> x[2]])>>, RejFile)
+                        CSVWrite("%1$s", <<ToJson([law |-> LawName(x, o), n |-> row, k |-> x[2]])>>, RejFile)
 ModelOK(o) == \A l \in ModelDiff(o) : CSVWrite("%1$s", <<ToJson([law |-> l, n |-> row, k |-> 0])>>, RejFile)
 Emit == row = 0 \/ (LawsOK(Obs[row]) /\ ModelOK(Obs[row]))
 ASSUME CSVWrite("%1$s", <<ToJson([law |-> "stats", n |-> Len(Obs), k |-> 0])>>, RejFile)
